@@ -161,15 +161,16 @@ package fastaio
 //@   ghost hdrs int = 0
 //@   ghost gLen int = 0
 //@   ghost gWidth int = 0
+//@   ghost gSeq string = ""
 //@   loop 1:
 //@     invariant len(sent(cErr)) == 0 && len(sent(cdone)) == 0
 //@     invariant hdrs >= 0 && first == (hdrs == 0) && counter == ite(hdrs == 0, 0, hdrs - 1) && len(sent(chnl)) == counter
-//@     invariant len(seqBuffer) == gLen && implies(counter > 0, width == gWidth) && implies(hdrs == 0, gLen == 0)
+//@     invariant len(seqBuffer) == gLen && implies(counter > 0, width == gWidth) && implies(hdrs == 0, gLen == 0) && seqBuffer == gSeq
 //@     invariant forall(t, 0, counter, sent(chnl)[t].Idx == t && len(sent(chnl)[t].Seq) == gWidth)
-//@   after call:Text#1: do if len(line) > 0 && line[0] == '>' { hdrs++ } else { if hdrs > 0 { gLen += len(line) } }
-//@   before send#4: assert [record] fr.Idx == hdrs - 2 && len(fr.Seq) == gLen
-//@   after send#4: do if hdrs == 2 { gWidth = gLen }; gLen = 0
-//@   before send#7: assert [lastrecord] fr.Idx == hdrs - 1 && len(fr.Seq) == gLen
+//@   after call:Text#1: do if len(line) > 0 && line[0] == '>' { hdrs++ } else { if hdrs > 0 && len(line) > 0 { gLen += len(line); gSeq = gSeq + strupper(line) } }
+//@   before send#4: assert [record] fr.Idx == hdrs - 2 && len(fr.Seq) == gLen && fr.Seq == gSeq
+//@   after send#4: do if hdrs == 2 { gWidth = gLen }; gLen = 0; gSeq = ""
+//@   before send#7: assert [lastrecord] fr.Idx == hdrs - 1 && len(fr.Seq) == gLen && fr.Seq == gSeq
 //@   ensures [c18.exclusive] len(sent(cErr)) + len(sent(cdone)) == 1
 //@   ensures [local.strict.count] implies(len(sent(cErr)) == 0, len(sent(chnl)) == hdrs && hdrs >= 1)
 //@   ensures [idx] forall(t, 0, len(sent(chnl)), sent(chnl)[t].Idx == t)
